@@ -44,7 +44,7 @@ type C10Case struct {
 var dbTypes = []uint8{db.DATATYPE_BIN, db.DATATYPE_MENU, db.DATATYPE_TEMPLATE, db.DATATYPE_STATICLOAD, db.DATATYPE_STATE, db.DATATYPE_USERDATA}
 var c10Sessions = []string{"", "a", "b", "alice", "s1"}
 var c10Langs = []string{"", "", "nor", "eng", "swa"}
-var c10Keys = []string{"foo", "foobar", "fo", "bar", "baz", "x", "xyzzy", "foo_menu", "bar_menu", "a1", "k_1", "key_two", "Pfoo", "Px"}
+var c10Keys = []string{"foo", "foobar", "fo", "bar", "baz", "x", "xyzzy", "foo_menu", "bar_menu", "a1", "k_1", "key_two", "Pfoo", "Px", "tmp", "a", "alice", "lock", "bak"}
 var c10Vals = []string{"", "v", "value one", "x\x00y", "\xff\xfe", "line1\nline2", "{{.a}}", "another value"}
 
 func translatable(typ uint8) bool {
@@ -151,6 +151,22 @@ func genC10Lang(t *rapid.T) C10Case {
 	vals := []string{"", "hello", "good day"}
 	langKind := []string{"lang", "lang", "ctxlang"}
 	n := 6 + uniformN(t, 25, "nops")
+	if chancePct(t, 30, "equaltranslation") {
+		// a translation that equals the default entry at the time it is written, after which
+		// one of the two changes: they are two entries, not one
+		k := BS(keys[uniformN(t, len(keys), "eqkey")])
+		l := []string{"nor", "eng"}[uniformN(t, 2, "eqlang")]
+		v := BS(vals[uniformN(t, 3, "eqval")])
+		v2 := BS(vals[uniformN(t, 3, "eqval2")])
+		first, second := "", l
+		if chancePct(t, 50, "eqorder") {
+			first, second = l, ""
+		}
+		ops = append(ops, C10Op{Kind: "lang", Lang: first}, C10Op{Kind: "put", Key: k, Val: v},
+			C10Op{Kind: "lang", Lang: second}, C10Op{Kind: "put", Key: k, Val: v},
+			C10Op{Kind: "lang", Lang: []string{first, second}[uniformN(t, 2, "eqchange")]}, C10Op{Kind: "put", Key: k, Val: v2},
+			C10Op{Kind: "lang", Lang: l}, C10Op{Kind: "get", Key: k}, C10Op{Kind: "lang", Lang: ""}, C10Op{Kind: "get", Key: k})
+	}
 	for i := 0; i < n; i++ {
 		switch k := uniformN(t, 22, "kind"); {
 		case k < 7:
@@ -168,12 +184,37 @@ func genC10Lang(t *rapid.T) C10Case {
 	return C10Case{Ops: ops}
 }
 
+// genC10Scratch: an entry whose stored name is what a writer might use as scratch name for
+// another entry (session-scoped names are <session>.<key>: key "tmp" of session S next to key
+// S of the empty session, and the like), written before and after that other entry.
+func genC10Scratch(t *rapid.T) C10Case {
+	typ := []uint8{db.DATATYPE_USERDATA, db.DATATYPE_STATE}[uniformN(t, 2, "typ")]
+	sess := []string{"a", "alice", "s1"}[uniformN(t, 3, "session")]
+	suffix := []string{"tmp", "lock", "bak", "new", "old", "swp", "part", "1"}[uniformN(t, 8, "suffix")]
+	ops := []C10Op{{Kind: "prefix", Typ: typ}, {Kind: "lock", Typ: safeLock, Locked: false}}
+	a := []C10Op{{Kind: "session", Session: sess}, {Kind: "put", Key: BS(suffix), Val: "scratch-named"}}
+	b := []C10Op{{Kind: "session", Session: ""}, {Kind: "put", Key: BS(sess), Val: "plain"}}
+	if chancePct(t, 30, "order") {
+		a, b = b, a
+	}
+	ops = append(ops, a...)
+	ops = append(ops, b...)
+	if chancePct(t, 50, "rewrite") {
+		ops = append(ops, C10Op{Kind: "session", Session: ""}, C10Op{Kind: "put", Key: BS(sess), Val: "plain again"})
+	}
+	ops = append(ops, C10Op{Kind: "session", Session: sess}, C10Op{Kind: "get", Key: BS(suffix)}, C10Op{Kind: "dump", Key: ""},
+		C10Op{Kind: "session", Session: ""}, C10Op{Kind: "get", Key: BS(sess)})
+	return C10Case{Ops: ops}
+}
+
 func genC10(t *rapid.T) C10Case {
 	switch k := uniformN(t, 20, "focus"); {
 	case k < 7:
 		return genC10Dump(t)
 	case k < 11:
 		return genC10Lang(t)
+	case k < 12:
+		return genC10Scratch(t)
 	}
 	ops := genSlice(t, genC10Op, 1, 40, "ops")
 	// start in a writable, typed state most of the time
